@@ -3,7 +3,7 @@
    Proofs: C16/Lemmas.v (string primitives), C16/Roundtrip.v (reader on the writer's output). *)
 From Coq Require Import List NArith ZArith Permutation.
 Import ListNotations.
-Require Import Base.Wire Base.PyStr C16.Model C16.Lemmas C16.Roundtrip C16.Files C16.Config.
+Require Import Base.Wire Base.PyStr C16.Model C16.Lemmas C16.Roundtrip C16.Files C16.Config C16.Nicks.
 
 (* Full statement (refuted on the pinned tree, findings F1/F2/...):
      forall db, read_users (write_users db) = (UState None (sort_users db) (max_id (sort_users db) 0), None)
@@ -214,3 +214,21 @@ Theorem C16_ignores_roundtrip_any_config :
   = map (fun he => (fst he, e_int (snd he))) (filter (ign_kept now) db).
 Proof. exact ignores_roundtrip_any_config. Qed.
 Print Assumptions C16_ignores_roundtrip_any_config.
+
+(* ---------------------------------------------------------------------------------------------
+   The nick mutators (IrcUser.addNick / removeNick, modelled statement by statement with the order pinned
+   from the source: tables ADDNICK_LIST_BEFORE_CHECK, REMOVENICK_DROPS_EMPTY).  users.conf cannot
+   represent a network with an empty nick list (`nicks net ` reads back as [""], users_dom excludes it);
+   the mutators never produce one, and a refused claim changes nothing. *)
+Theorem C16_refused_nick_claim_changes_nothing :
+  forall db u net nick valid e,
+  snd (add_nick db u net nick valid) = Some e -> fst (add_nick db u net nick valid) = u.
+Proof. exact refused_addnick_unchanged. Qed.
+Print Assumptions C16_refused_nick_claim_changes_nothing.
+
+Theorem C16_nick_mutators_keep_lists_nonempty :
+  forall db u net nick valid, nick_lists_nonempty u = true ->
+  nick_lists_nonempty (fst (add_nick db u net nick valid)) = true
+  /\ nick_lists_nonempty (fst (remove_nick u net nick)) = true.
+Proof. intros. split; [apply add_nick_keeps_nonempty|apply remove_nick_keeps_nonempty]; assumption. Qed.
+Print Assumptions C16_nick_mutators_keep_lists_nonempty.
